@@ -135,6 +135,11 @@ class FloatOrder:
             return True  # G1
         if self.leaf(u) and self.leaf(v):
             return self.exact_le(lin_of(u), lin_of(v))
+        # comparison with the constant zero: sign of the rounded expression
+        if u[0] == "c" and u[1] == 0 and not self.leaf(v) and v[0] not in ("max", "min") and self.nonneg(v, depth + 1):
+            return True
+        if v[0] == "c" and v[1] == 0 and not self.leaf(u) and u[0] not in ("max", "min") and self.nonpos(u, depth + 1):
+            return True
         # max / min (G4)
         if v[0] == "max" and any(self.le(u, q, depth + 1) for q in v[1]):
             return True
